@@ -61,12 +61,22 @@ def mapVal (ks : List String) (vs : List Value) : Res Value :=
 def objectVal (ks : List String) (vs : List Value) : Value :=
   ⟨.object ks (vs.map (·.ty)) (ks.map fun _ => false), .smap ks (vs.map (·.v))⟩
 
-/-- does the payload stay inside what `Value.equals` models (no capsule) -/
-def modelledL : List Payload → Bool
-  | [] => true
-  | .caps :: _ => false
-  | .bad _ :: _ => false
-  | _ :: ps => modelledL ps
+mutual
+/-- a capsule (or an ill-typed payload) somewhere inside -/
+def hasCaps : Payload → Bool
+  | .caps => true
+  | .bad _ => true
+  | .marked _ r => hasCaps r
+  | .seq vs | .smap _ vs | .sset _ vs => hasCapsL vs
+  | _ => false
+def hasCapsL : List Payload → Bool
+  | [] => false
+  | p :: ps => hasCaps p || hasCapsL ps
+end
+
+/-- do the payloads stay inside what `Value.equals` models (capsules compare by
+their Go pointers, which the wire form does not carry) -/
+def modelledL (ps : List Payload) : Bool := !hasCapsL ps
 
 /-- `setRules{e}`: `Hash` from the oracle, `Equivalent` = `Equals` is known true -/
 def setRules (X : SetOracle) (e : Ty) : Rules Payload :=
